@@ -119,6 +119,25 @@ def r5_for_zip(text):
     return "".join(out), n
 
 
+def r7_for_chain(text):
+    """R7: `for x in A.iter().chain(B.iter()) {` over two const tables -> index loop over A
+    then B through generated accessors `A_len()/A_get(i)` (see units: literal tables)."""
+    n = 0
+    rx = re.compile(r"for\s+(?P<pat>\w+)\s+in\s+(?P<a>[A-Z_][A-Z0-9_]*)\.iter\(\)\.chain\((?P<b>[A-Z_][A-Z0-9_]*)\.iter\(\)\)\s*\{")
+    out, pos = [], 0
+    for m in rx.finditer(text):
+        i = _fresh()
+        a, b, pat = m.group("a"), m.group("b"), m.group("pat")
+        new = ("let mut %s: usize = 0; while %s < %s_len() + %s_len() { let %s = if %s < %s_len() { %s_get(%s) } else { %s_get(%s - %s_len()) }; %s += 1;"
+               % (i, i, a, b, pat, i, a, a, i, b, i, a, i))
+        out.append(text[pos:m.start()])
+        out.append(_pad(m.group(0), new))
+        pos = m.end()
+        n += 1
+    out.append(text[pos:])
+    return "".join(out), n
+
+
 def r8_zip_all(text):
     """R8: `X.iter().zip(Y.iter()).all(|(a, b)| BODY)` -> short-circuiting index loop."""
     n = 0
@@ -144,18 +163,58 @@ def r8_zip_all(text):
     return text, n
 
 
+def _split_args(argtext):
+    """split macro arguments at top-level commas"""
+    out, depth, cur, i, n = [], 0, [], 0, len(argtext)
+    while i < n:
+        c = argtext[i]
+        if c == '"':
+            j = i + 1
+            while j < n and argtext[j] != '"':
+                j += 2 if argtext[j] == "\\" else 1
+            cur.append(argtext[i:j + 1])
+            i = j + 1
+            continue
+        if c == "'" and i + 2 < n and (argtext[i + 2] == "'" or argtext[i + 1] == "\\"):
+            j = argtext.index("'", i + 2)
+            cur.append(argtext[i:j + 1])
+            i = j + 1
+            continue
+        if c in "([{":
+            depth += 1
+        elif c in ")]}":
+            depth -= 1
+        if c == "," and depth == 0:
+            out.append("".join(cur).strip())
+            cur = []
+        else:
+            cur.append(c)
+        i += 1
+    last = "".join(cur).strip()
+    if last:
+        out.append(last)
+    return out
+
+
 def r9_format(text):
-    """R9: format!/msgtext!/msgcode!/println!/eprintln! -> opaque prelude values."""
+    """R9: format!/msgtext!/msgcode!/print macros -> opaque prelude values.  The argument
+    expressions after the format string are KEPT (they are evaluated, and may panic): they
+    are passed, by reference, to the opaque function."""
     total = 0
-    for mac, repl in (("format!", "vf::opaque_string()"), ("msgtext!", "vf::opaque_part()"),
-                      ("msgcode!", "vf::opaque_part()"), ("println!", "vf::emit()"),
-                      ("eprintln!", "vf::emit()"), ("print!", "vf::emit()"),
-                      ("eprint!", "vf::emit()")):
+    for mac, fn in (("format!", "vf_opaque_string"), ("msgtext!", "vf_opaque_part"),
+                    ("msgcode!", "vf_opaque_part"), ("println!", "vf_emit"),
+                    ("eprintln!", "vf_emit"), ("print!", "vf_emit"), ("eprint!", "vf_emit")):
         while True:
             m = re.search(r"(?<![A-Za-z0-9_])" + re.escape(mac) + r"\s*\(", text)
             if not m:
                 break
             close = _balanced(text, m.end() - 1)
+            args = _split_args(text[m.end():close - 1])
+            rest = []
+            for a in args[1:]:
+                a = re.sub(r"^[A-Za-z_][A-Za-z0-9_]*\s*=\s*(?!=)", "", a)  # named argument
+                rest.append("&(%s)" % a)
+            repl = "%s()" % fn if not rest else "%s_args((%s,))" % (fn, ", ".join(rest))
             text = text[:m.start()] + _pad(text[m.start():close], repl) + text[close:]
             total += 1
     return text, total
@@ -177,6 +236,7 @@ def named_ret(text, name="r"):
 RULES = {
     "R4": r4_for_iter,
     "R5": r5_for_zip,
+    "R7": r7_for_chain,
     "R8": r8_zip_all,
     "R9": r9_format,
 }
